@@ -55,6 +55,14 @@ def run(chk, tier):
         chk.violation("L1:" + ",".join(res.violated), "algorithm layer (mirror of fit_dtype) differs from contract:\n"
                       + res.out[-1500:], {"leg": "L1"})
 
+    # L1, unbounded: Apalache (SMT) checks Ladder = Narrowest for ALL integers of the domain (FitDtypeInt.tla)
+    import time
+    t0 = time.time()
+    ok, out = core.run_apalache("FitDtypeInt.tla", "LadderIsNarrowest")
+    chk.legs["L1 Apalache FitDtypeInt (all integers, symbolic)"] = {"holds": ok, "wall_s": round(time.time() - t0, 1)}
+    if not ok:
+        chk.violation("L1:apalache:LadderIsNarrowest", out[-1500:], {"leg": "L1-apalache"})
+
     # L3
     consts = harvest_constants(fit_dtype)
     pts = points(tier, consts)
